@@ -210,7 +210,7 @@ func dedupe(in []string) []string {
 	return out
 }
 
-var propC03 = Register(Prop[E2ECase]{ID: "C03", Name: "C03", Check: checkC03})
+var propC03 = Register(Prop[E2ECase]{ID: "C03", Name: "C03", Pending: true, Check: checkC03})
 
 func TestC03Rapid(t *testing.T) {
 	p := propC03
